@@ -603,3 +603,98 @@ func (P *Prog) returnsResult0Of(fn *ssa.Function, ci ssa.CallInstruction) bool {
 	}
 	return n > 0
 }
+
+// constGlobalMap: an unexported package-level map initialised once by the
+// package initialiser from a map literal of constants and never written (nor
+// its address or value handed out for writing) afterwards: its entries as
+// key-term string -> value-term string.
+func (P *Prog) constGlobalMap(name string) (map[string]string, bool) {
+	g := P.global(name)
+	if g == nil || g.Object() == nil || g.Object().Exported() {
+		return nil, false
+	}
+	if _, isMap := deref(g.Type()).Underlying().(*types.Map); !isMap {
+		return nil, false
+	}
+	sts := P.globalStores(g)
+	if len(sts) != 1 || !isInitFunc(sts[0].Parent()) || sts[0].Addr != ssa.Value(g) {
+		return nil, false
+	}
+	mm, ok := sts[0].Val.(*ssa.MakeMap)
+	if !ok {
+		return nil, false
+	}
+	for _, fn := range P.Funcs {
+		if isInitFunc(fn) {
+			continue
+		}
+		for _, w := range P.effects.summary(fn).writes {
+			if w.kind == "global" && w.global == name {
+				return nil, false
+			}
+		}
+	}
+	// uses of the variable outside init: loads whose value is only looked up / measured
+	for _, fn := range P.allFuncsInclInit() {
+		for _, b := range fn.Blocks {
+			for _, in := range b.Instrs {
+				for _, op := range in.Operands(nil) {
+					if *op != ssa.Value(g) {
+						continue
+					}
+					switch u := in.(type) {
+					case *ssa.Store:
+						if u != sts[0] {
+							return nil, false
+						}
+					case *ssa.UnOp:
+						if u.Op != token.MUL {
+							return nil, false
+						}
+						for _, ref := range *u.Referrers() {
+							switch r2 := ref.(type) {
+							case *ssa.Lookup, *ssa.DebugRef, *ssa.Range:
+							case *ssa.Call:
+								if bi, ok := r2.Call.Value.(*ssa.Builtin); !ok || bi.Name() != "len" {
+									return nil, false
+								}
+							default:
+								return nil, false
+							}
+						}
+					default:
+						return nil, false
+					}
+				}
+			}
+		}
+	}
+	out := map[string]string{}
+	strip := func(t *Term) *Term {
+		if t.Op == "iface" && len(t.Args) == 1 {
+			return t.Args[0]
+		}
+		return t
+	}
+	for _, ref := range *mm.Referrers() {
+		switch u := ref.(type) {
+		case *ssa.MapUpdate:
+			k, v := strip(P.terms.of(u.Key)), strip(P.terms.of(u.Value))
+			if k.Op != "const" || !closedConst(v) {
+				return nil, false
+			}
+			if _, dup := out[k.S]; dup {
+				return nil, false
+			}
+			out[k.S] = v.String()
+		case *ssa.Store:
+			if u != sts[0] {
+				return nil, false
+			}
+		case *ssa.DebugRef:
+		default:
+			return nil, false
+		}
+	}
+	return out, true
+}
